@@ -15,7 +15,7 @@ from sim import sched as S
 
 PROP = "C19"
 GROUPS = ["m_basic", "m_ns", "m_same1", "m_same2", "m_xsi", "m_wild", "m_compound", "m_edge", "fx", "m_gen", "m_gen", "noclass", "ctx"]
-MODES = [("shared", False)] * 7 + [("writers", False)] * 7 + [("all", False)] * 2 + [("shared", True)] * 2 + [("writers", True)] * 2
+MODES = [("shared", False)] * 6 + [("writers", False)] * 6 + [("all", False)] * 2 + [("shared", True)] * 5 + [("writers", True)] * 4
 THREAD_COUNTS = [2, 2, 2, 2, 3, 3, 3, 4, 4, 5, 6, 8, 10, 12, 16]
 
 _codes_cache = {}
@@ -28,6 +28,50 @@ def codes_for(mode):
         _codes_cache["shared"] = S.shared_code_objects(allc)
         _codes_cache["writers"] = _codes_cache["shared"] | S.writer_code_objects(allc)
     return _codes_cache[mode]
+
+
+_named_codes = {}
+
+
+def codes_naming(name):
+    """Library functions that name the given module-level container."""
+    if name not in _named_codes:
+        _named_codes[name] = {code for code in codes_for("all") if name in code.co_names and code.co_name != "<module>"}
+    return _named_codes[name]
+
+
+def gen_container_directed(seed, rng):
+    """Bytecode-level pre-emption confined to the functions that name one module-level container (a pool, a registry,
+    a table), in calls that execute those functions: a check-then-act on such a container sits inside one expression."""
+    globs = sorted(S._mutable_globals())
+    rng.shuffle(globs)
+    for g in globs:
+        codes = codes_naming(g)
+        if not codes:
+            continue
+        lines = {S.short_loc(code, ln) for code in codes for _, _, ln in code.co_lines() if ln is not None}
+        users = sorted(n for n, cov in core.Z.cov.items() if cov & lines and not core.Z.op_by_name[n].needs)
+        if len(users) < 1:
+            continue
+        n = rng.choice([2, 2, 3, 3, 4])
+        same_kind = rng.random() < 0.6
+        a = rng.choice(users)
+        pool = [u for u in users if core.Z.op_by_name[u].kind == core.Z.op_by_name[a].kind] if same_kind else users
+        threads = [[a]] + [[rng.choice(pool)] for _ in range(n - 1)]
+        warm = [rng.choice(pool)] if rng.random() < 0.7 else []
+        return {
+            "seed": seed,
+            "threads": threads,
+            "warmup": warm,
+            "shared_tools": rng.random() < 0.5,
+            "mode": "named:" + g,
+            "opcode": True,
+            "p": rng.choice([0.1, 0.25, 0.5]),
+            "loc_cap": rng.choice([1, 2, 4]),
+            "max_switches": rng.choice([2, 3, 4, 8]),
+            "strategy": "container-directed",
+        }
+    return None
 
 
 _loc_codes = {}
@@ -409,6 +453,10 @@ def _gen_spec(seed):
         spec = gen_iteration_directed(seed, rng)
         if spec:
             return spec
+    if core.Z.cov and rng.random() < 0.08:
+        spec = gen_container_directed(seed, rng)
+        if spec:
+            return spec
     if core.Z.cov_gwrites and gwrite_tables()[0] and rng.random() < 0.25:
         spec = gen_gwrite_directed(seed, rng)
         if spec:
@@ -576,9 +624,13 @@ def run_spec(spec, R, timeout=20.0):
                     "op": name,
                     "got": {k: rec[k] for k in ("k", "v", "w", "l")},
                     "alone": {k: ref[k] for k in ("k", "v", "w", "l")},
-                    "sig": (["globalns-override"] if ":globalns" in name else []) + ["result", name.split(":")[0], rec["k"], rec["v"].split(":")[0] if rec["k"] == "exc" else "value"],
+                    "sig": (["globalns-override"] if ":globalns" in name and both_globalns else []) + ["result", name.split(":")[0], rec["k"], rec["v"].split(":")[0] if rec["k"] == "exc" else "value"],
                 }
             )
+
+    # the recorded first-use-wins finding needs both mappings of the annotation in one run
+    _all = [nm for prog in programs for nm in prog] + list(spec.get("warmup", []))
+    both_globalns = any(":globalns2" in nm for nm in _all) and any(":globalns" in nm and ":globalns2" not in nm for nm in _all)
 
     def do_item(who, idx, name, the_env):
         if name.startswith("import:"):
@@ -666,6 +718,8 @@ def run_spec(spec, R, timeout=20.0):
         sch.idents[th.ident] = t
     if spec.get("mode") == "hotonly":
         traced = codes_with(spec.get("hot", ()))
+    elif str(spec.get("mode", "")).startswith("named:"):
+        traced = codes_naming(spec["mode"][6:])
     else:
         traced = codes_for(spec.get("mode", "shared"))
     monitor = S.Monitor(sch, traced, opcode=spec.get("opcode", False))
